@@ -415,6 +415,38 @@ func Specials(md protoreflect.MessageDescriptor) []Case {
 			s.apply(m)
 		}
 		out = append(out, Case{which, m})
+		if which == "all-second" {
+			// every list field set at once with lengths that fall / rise along the declaration order (k, k-1 ... 1 and
+			// 1, 2 ... k for k list fields): scratch storage shared between the fields of one message shows when a later list is shorter
+			// (or longer) than an earlier one
+			var lists []protoreflect.FieldDescriptor
+			for i := 0; i < fds.Len(); i++ {
+				if fd := fds.Get(i); fd.IsList() && fd.Message() == nil {
+					lists = append(lists, fd)
+				}
+			}
+			if len(lists) >= 2 {
+				for _, dir := range []string{"lists-of-falling-length", "lists-of-rising-length"} {
+					lm := dynamicpb.NewMessage(md)
+					for i, fd := range lists {
+						n := len(lists) - i
+						if dir == "lists-of-rising-length" {
+							n = 1 + i
+						}
+						if n > 20 {
+							n = 20
+						}
+						dom := elemDomain(fd, 1, false)
+						l := lm.Mutable(fd).List()
+						for k := 0; k < n; k++ {
+							l.Append(cloneValue(fd, dom[(k+1+i)%len(dom)].v))
+						}
+					}
+					FillRequired(lm)
+					out = append(out, Case{dir, lm})
+				}
+			}
+		}
 	}
 	return out
 }
